@@ -71,6 +71,11 @@
 #include <utility>
 #include <vector>
 
+// harness/c14_member.cpp (second translation unit): the ops `mem` and `mems` (member operators on objects in one memory)
+std::string c14_member_handle(std::vector<std::string> const &);
+// harness/c14_extra.cpp (third translation unit): the ops `nb`, `md`, `tp`, `inf` (neighbouring public API)
+std::string c14_extra_handle(std::vector<std::string> const &);
+
 namespace
 {
 namespace fm = fcppt::math;
@@ -1298,7 +1303,7 @@ std::string det0_op()
   return std::to_string(fm::matrix::determinant(empty));
 }
 
-std::string handle(std::vector<std::string> const &t)
+std::string handle1(std::vector<std::string> const &t)
 {
   try
   {
@@ -1338,6 +1343,10 @@ std::string handle(std::vector<std::string> const &t)
       return bits_op(t);
     if (t[0] == "det0" && t.size() == 1)
       return det0_op();
+    if (t[0] == "mem" || t[0] == "mems")
+      return c14_member_handle(t);
+    if (t[0] == "nb" || t[0] == "md" || t[0] == "tp" || t[0] == "inf")
+      return c14_extra_handle(t);
     return "bad-op";
   }
   catch (std::exception const &)
@@ -1348,6 +1357,82 @@ std::string handle(std::vector<std::string> const &t)
   {
     return "exc:unknown";
   }
+}
+
+// ------------------------------------------------------------------ digests of systematic families of the lines above
+
+ints enum_digits(unsigned n, unsigned idx, unsigned base)
+{
+  ints r;
+  for (unsigned j = 0; j < n; ++j)
+  {
+    r.push_back(static_cast<long>(idx % base) - 1);
+    idx /= base;
+  }
+  return r;
+}
+
+template <typename F>
+std::string digest_of(unsigned count, F line)
+{
+  std::uint64_t h = vh::fnv_init;
+  for (unsigned k = 0; k < count; ++k)
+  {
+    std::string const s = handle1(line(k));
+    if (s == "bad-op")
+      return s;
+    h = vh::fnv(h, s);
+  }
+  return "D " + vh::hex64(h);
+}
+
+std::string handle(std::vector<std::string> const &t)
+{
+  using toks = std::vector<std::string>;
+  if (t.size() == 5 && t[0] == "vecs")
+  {
+    auto const n = dim_in(t[3], 1, 4);
+    auto const ia = nat(t[4]);
+    if (!n || !ia || *ia >= (1U << (2 * *n)))
+      return "bad-op";
+    return digest_of(
+        1U << (2 * *n),
+        [&](unsigned ib)
+        {
+          return toks{"vec", t[1], t[2], t[3], show(enum_digits(*n, *ia, 4)), show(enum_digits(*n, ib, 4)),
+                      std::to_string(static_cast<long>((*ia + ib) % 7U) - 3), std::to_string((*ia + 2 * ib) % (*n + 2))};
+        });
+  }
+  if (t.size() == 3 && t[0] == "crs")
+  {
+    auto const ia = dim_in(t[2], 0, 63);
+    if (!ia)
+      return "bad-op";
+    return digest_of(64, [&](unsigned ib) { return toks{"cross", t[1], show(enum_digits(3, *ia, 4)), show(enum_digits(3, ib, 4))}; });
+  }
+  if (t.size() == 3 && t[0] == "sqs")
+  {
+    auto const a = dim_in(t[2], 0, 80);
+    if (!a)
+      return "bad-op";
+    return digest_of(
+        243,
+        [&](unsigned lo)
+        {
+          ints e = enum_digits(5, lo, 3);
+          ints const hi = enum_digits(4, *a, 3);
+          e.insert(e.end(), hi.begin(), hi.end());
+          return toks{"sq", t[1], "3", show(e)};
+        });
+  }
+  if (t.size() == 4 && t[0] == "mvs")
+  {
+    auto const a = dim_in(t[3], 0, 4095);
+    if (!a)
+      return "bad-op";
+    return digest_of(64, [&](unsigned iv) { return toks{"mv", t[1], t[2], "2", "3", show(enum_digits(6, *a, 4)), show(enum_digits(3, iv, 4))}; });
+  }
+  return handle1(t);
 }
 }
 
